@@ -39,6 +39,8 @@ type Gen struct {
 	extH        map[string]uint64
 	pair        [2]string // (event type, mutated field) of the hash pair being emitted
 	genesisMode bool
+	lastSendTag string
+	orchFromVals bool
 	closedLoop  bool // loop profile: execution claims are only those the ghost contracts / multisig would emit
 	ext         *extWorld
 	splitVotes  bool // ledger-type profiles: let a claim's votes straddle a block boundary now and then
@@ -225,7 +227,7 @@ func (g *Gen) setup() {
 	}
 	for _, rc := range g.recips {
 		if r.Intn(3) == 0 {
-			vals := []string{"999999999999999999", "1000000000000000000", "2000000000000000000", "3999999999999999999", "8000000000000000000", "16000000000000000000", "32000000000000000000", "40000000000000000000"}
+			vals := []string{"999999999999999999", "1000000000000000000", "2000000000000000000", "3999999999999999999", "8000000000000000000", "16000000000000000000", "32000000000000000000", "40000000000000000000", "63999999999999999999", "64000000000000000000", "100000000000000000000", "512000000000000000000", "5000000000000000000000"}
 			g.do("holder " + strings.ToLower(rc[2:]) + " " + vals[r.Intn(len(vals))])
 		}
 	}
@@ -261,6 +263,9 @@ func (g *Gen) delegate(vi int, chain string, valid bool) {
 	v := &g.vals[vi]
 	eth := ethAddrs[g.rng.Intn(len(ethAddrs))]
 	orch := hex20(byte(0xc0 + g.rng.Intn(12)))
+	if g.orchFromVals && g.rng.Intn(8) == 0 {
+		orch = g.vals[g.rng.Intn(len(g.vals))].addr // an orchestrator account that is itself some validator's operator account
+	}
 	seq := uint64(1 + g.rng.Intn(5))
 	signedBy, signedVal, nonce := eth, v.addr, seq-1
 	if !valid {
@@ -349,7 +354,12 @@ func (g *Gen) opSend() {
 	if g.rng.Intn(4) == 0 { // equal fees across transfers
 		fee = big.NewInt(1000000000000000)
 	}
-	g.do(fmt.Sprintf("send %s %s %s %s %s %s %s", g.pick(g.accounts), chain, g.pick(g.recips), denom, amt, fee, g.nextTag()))
+	tag := g.nextTag()
+	if g.lastSendTag != "" && g.rng.Intn(8) == 0 {
+		tag = g.lastSendTag // a second MsgSendToExternal of the same transaction: both transfers carry one tx hash
+	}
+	g.lastSendTag = tag
+	g.do(fmt.Sprintf("send %s %s %s %s %s %s %s", g.pick(g.accounts), chain, g.pick(g.recips), denom, amt, fee, tag))
 }
 
 func (g *Gen) opCancel() {
@@ -475,6 +485,49 @@ func (g *Gen) opExternalExecution() {
 	g.voteAll(chain, fmt.Sprintf("bex %s %d %d %d 0x%s %s %s", gb.token, n, gb.nonce, h, g.nextTag(), feePaid, g.pick(g.recips)))
 }
 
+// opMinterBurst: several Minter users bridge the same coin to one external chain with very different fees
+// (their fee refunds go back to Minter), the transfers are batched, and the batch executes with cheap gas.
+func (g *Gen) opMinterBurst() {
+	mtoks := g.tokensOn("minter")
+	if len(mtoks) == 0 {
+		return
+	}
+	t := mtoks[g.rng.Intn(len(mtoks))]
+	var dst *tokSpec
+	for i := range g.tokens {
+		if g.tokens[i].denom == t.denom && g.tokens[i].chain != "minter" {
+			dst = &g.tokens[i]
+		}
+	}
+	if dst == nil {
+		return
+	}
+	n := 2 + g.rng.Intn(4)
+	for i := 0; i < n; i++ {
+		amt := new(big.Int).Mul(big.NewInt(int64(1000+g.rng.Intn(9000))), big.NewInt(1000000000000000))
+		fee := new(big.Int).Mul(big.NewInt(int64([]int{10, 10, 10, 80, 90, 100, 110, 120, 460}[g.rng.Intn(9)])), big.NewInt(100000000000000))
+		ev := g.nextEvt["minter"]
+		g.nextEvt["minter"]++
+		g.voteAll("minter", fmt.Sprintf("ttc %d %s %s %s %s %s %s %d 0x%s", ev, t.ext, amt, fee, g.pick(g.recips), dst.chain, g.pick(g.recips), g.eventHeight("minter"), g.nextTag()))
+	}
+	g.block()
+	g.do(fmt.Sprintf("reqbatch %s %s", dst.chain, dst.denom))
+	g.block()
+	for _, b := range g.env.Batches(g.env.ctx, dst.chain) {
+		if b.ExternalTokenId == dst.ext && len(b.Transactions) >= 2 {
+			ev := g.nextEvt[dst.chain]
+			g.nextEvt[dst.chain]++
+			feePaid := big.NewInt(int64(1 + g.rng.Intn(100000)))
+			if g.rng.Intn(3) == 0 {
+				feePaid = new(big.Int).Mul(big.NewInt(int64(1+g.rng.Intn(30))), big.NewInt(100000000000000))
+			}
+			g.voteAll(dst.chain, fmt.Sprintf("bex %s %d %d %d 0x%s %s %s", b.ExternalTokenId, ev, b.BatchNonce, g.eventHeight(dst.chain), g.nextTag(), feePaid, g.pick(g.recips)))
+			g.block()
+			break
+		}
+	}
+}
+
 func (g *Gen) opBatchExecuted() {
 	if g.closedLoop {
 		g.opExternalExecution()
@@ -553,10 +606,22 @@ func (g *Gen) runLedger(nops int) {
 			g.opDeposit()
 		case x < 72:
 			g.opBatchExecuted()
-		case x < 74:
+		case x < 77 && !g.closedLoop && g.rng.Intn(3) == 0:
+			g.opMinterBurst()
+		case x < 75 && g.rng.Intn(2) == 0:
+			// a governance proposal is dry-run on a branch that is thrown away (gov SubmitProposal / CheckTx)
+			g.do(fmt.Sprintf("world dryrun:tokens:%d", []int64{0, 50000000000000000, 900000000000000000}[g.rng.Intn(3)]))
+		case x < 74 || (g.closedLoop && x < 78):
 			// a quiet stretch: blocks pass, nothing is reported from outside
-			for k := 3 + g.rng.Intn(14); k > 0; k-- {
+			k := 3 + g.rng.Intn(14)
+			if g.closedLoop {
+				k = 8 + g.rng.Intn(45) // long enough for any extrapolated clock to run past a batch timeout
+			}
+			for ; k > 0; k-- {
 				g.block()
+			}
+			if g.closedLoop {
+				g.opExternalExecution() // the external chain was not asleep: a relayer executes what it still accepts
 			}
 		default:
 			g.block()
@@ -630,6 +695,8 @@ func runProfile(g *Gen, profile string, nops int) {
 	case "loop":
 		g.closedLoop = true
 		g.runLedger(nops)
+	case "evmloop":
+		g.runEvmLoop(nops)
 	case "votes":
 		g.runVotes(nops)
 	case "oracle":
@@ -638,10 +705,13 @@ func runProfile(g *Gen, profile string, nops int) {
 		g.runKeys(nops)
 	case "genesis":
 		g.genesisMode = true
-		if g.rng.Intn(2) == 0 {
+		switch g.rng.Intn(5) {
+		case 0, 1:
 			g.runLedger(nops)
-		} else {
+		case 2, 3:
 			g.runKeys(nops)
+		default:
+			g.runOracle(nops) // real oracle keeper: prices, holders, epochs and votes in progress across the round trip
 		}
 	case "stress":
 		g.runStress(nops)
@@ -776,6 +846,23 @@ func (g *Gen) runVotes(nops int) {
 		}
 		g.do("dump bank")
 	}
+	gapTry := func() {
+		// validators that have not voted yet may start anywhere: let all of them claim an event beyond the next one
+		chain := g.pick([]string{"ethereum", "minter"})
+		n := g.env.k.GetLastObservedEventNonce(g.env.ctx, types.ChainID(chain)) + uint64(2+r.Intn(2))
+		for _, v := range g.vals {
+			key := chain + "/" + v.addr
+			if _, ok := voted[key]; ok || !v.bonded {
+				continue
+			}
+			if g.do(fmt.Sprintf("vote %s %s %s", chain, v.addr, event(chain, n, 0))) == "ok" {
+				voted[key] = n
+			}
+		}
+	}
+	if r.Intn(3) == 0 {
+		gapTry()
+	}
 	for i := 0; i < nops; i++ {
 		switch x := r.Intn(100); {
 		case x < 70:
@@ -808,6 +895,10 @@ func (g *Gen) runVotes(nops int) {
 				}
 			case 2:
 				n = 0
+			case 3:
+				if n > 2 {
+					n = uint64(1 + r.Intn(int(n)-1)) // well behind the validator's own last vote
+				}
 			}
 			variant := 0
 			if r.Intn(5) == 0 {
@@ -937,6 +1028,10 @@ func (g *Gen) runOracle(nops int) {
 		default:
 			g.do("oend")
 			g.do("dump oracle")
+			if g.genesisMode && r.Intn(4) == 0 {
+				g.do("export_import")
+				g.do("dump oracle")
+			}
 			g.height++
 			g.time += 5
 			g.do(fmt.Sprintf("block %d %d", g.height, g.time))
@@ -1018,6 +1113,40 @@ func (g *Gen) runAbi(nops int) {
 			}
 			g.do(fmt.Sprintf("ckpt_batch %s %d %d %s %s", gid, g.randU64(), g.randU64(), g.randAddr(), t))
 		}
+		if r.Intn(3) == 0 {
+			// a contract (logic) call: 0..4 transfers and fees, payloads of any length, invalidation scopes of 0..40 bytes
+			list := func(n int, f func() string) string {
+				if n == 0 {
+					return "-"
+				}
+				var l []string
+				for j := 0; j < n; j++ {
+					l = append(l, f())
+				}
+				return strings.Join(l, ",")
+			}
+			hexOf := func(n int) string {
+				if n == 0 {
+					return "-"
+				}
+				b := make([]byte, n)
+				r.Read(b)
+				return hex.EncodeToString(b)
+			}
+			nt, nf := r.Intn(5), r.Intn(4)
+			scopeLen := []int{32, 32, 0, 1, 14, 31, 33, 40}[r.Intn(8)]
+			payLen := []int{0, 1, 31, 32, 33, 64, 100}[r.Intn(7)]
+			u256 := func() string { return g.randU256().String() }
+			ta, tt := list(nt, u256), list(nt, g.randAddr)
+			fa, ft := list(nf, u256), list(nf, g.randAddr)
+			if nt == 0 {
+				tt = "-"
+			}
+			if nf == 0 {
+				ft = "-"
+			}
+			g.do(fmt.Sprintf("ckpt_call %s %s %s %s %s %s %s %d %s %d", gid, ta, tt, fa, ft, g.randAddr(), hexOf(payLen), g.randU64(), hexOf(scopeLen), g.randU64()))
+		}
 		if r.Intn(5) == 0 {
 			d := make([]byte, 32)
 			r.Read(d)
@@ -1047,9 +1176,11 @@ func (g *Gen) runHash(nops int) {
 		case 0: // sth
 			f := []string{"sth", fmt.Sprint(n), g.randAddr(), amt.String(), g.randAddr(), acc(), fmt.Sprint(h), txh()}
 			g.do("hash " + strings.Join(f, " "))
-			k := 1 + r.Intn(7)
+			k := 1 + r.Intn(8)
 			m := append([]string{}, f...)
 			switch k {
+			case 8:
+				m[3] = "-" + m[3] // inadmissible unless Validate stops rejecting negative amounts
 			case 1:
 				m[1] = fmt.Sprint(n + 1)
 			case 2:
@@ -1065,15 +1196,19 @@ func (g *Gen) runHash(nops int) {
 			case 7:
 				m[7] = txh()
 			}
-			g.pair = [2]string{"sth", []string{"", "nonce", "coin", "amount", "sender", "receiver", "height", "txhash"}[k]}
+			g.pair = [2]string{"sth", []string{"", "nonce", "coin", "amount", "sender", "receiver", "height", "txhash", "amount-sign"}[k]}
 			g.do("hash " + strings.Join(m, " "))
 		case 1: // ttc
 			coin := g.randAddr()
 			f := []string{"ttc", fmt.Sprint(n), coin, amt.String(), "5", g.randAddr(), "bsc", g.randAddr(), fmt.Sprint(h), txh()}
 			g.do("hash " + strings.Join(f, " "))
-			k := 1 + r.Intn(9)
+			k := 1 + r.Intn(11)
 			m := append([]string{}, f...)
 			switch k {
+			case 10:
+				m[7] = m[7][2:] // the same recipient spelled without 0x (admissible: IsHexAddress), different effect
+			case 11:
+				m[3] = "-" + m[3] // inadmissible unless Validate stops rejecting negative amounts
 			case 1:
 				m[1] = fmt.Sprint(n + 1)
 			case 2:
@@ -1093,7 +1228,7 @@ func (g *Gen) runHash(nops int) {
 			case 9:
 				m[9] = txh()
 			}
-			g.pair = [2]string{"ttc", []string{"", "nonce", "coin", "amount", "fee", "sender", "rchain", "receiver", "height", "txhash"}[k]}
+			g.pair = [2]string{"ttc", []string{"", "nonce", "coin", "amount", "fee", "sender", "rchain", "receiver", "height", "txhash", "receiver-spelling", "amount-sign"}[k]}
 			g.do("hash " + strings.Join(m, " "))
 		case 2: // bex
 			f := []string{"bex", g.randAddr(), fmt.Sprint(n), fmt.Sprint(1 + r.Intn(50)), fmt.Sprint(h), txh(), "1000", g.randAddr()}
@@ -1193,6 +1328,14 @@ func (g *Gen) runKeys(nops int) {
 		}
 		g.vals = append(g.vals, valSpec{addr: hex20(byte(0xa0 + i)), power: p, bonded: r.Intn(8) > 0, orch: map[string]string{}, eth: map[string]string{}})
 	}
+	if r.Intn(2) == 0 {
+		// operator addresses at the ends of the byte order (range scans over store keys end with them)
+		g.vals[len(g.vals)-1].addr = "ff" + strings.Repeat("22", 19)
+		if len(g.vals) > 1 {
+			g.vals[0].addr = "00" + strings.Repeat("11", 19)
+		}
+	}
+	g.orchFromVals = true
 	g.do(g.stakingLine())
 	g.do("init")
 	for i := 0; i < 3; i++ {
@@ -1231,7 +1374,15 @@ func (g *Gen) runKeys(nops int) {
 			}
 		case x < 30:
 			vi := r.Intn(len(g.vals))
-			switch r.Intn(4) {
+			switch r.Intn(5) {
+			case 4:
+				// mainnet-sized consensus power (one staked HUB is 10^12 units): far above 2^32
+				g.vals[vi].power = int64(1+r.Intn(9000)) * 1000000000000
+				if r.Intn(2) == 0 {
+					for j := range g.vals {
+						g.vals[j].power = int64(1+r.Intn(9000)) * 1000000000000
+					}
+				}
 			case 0:
 				g.vals[vi].power = int64(1 + r.Intn(1000))
 			case 1:
@@ -1463,7 +1614,15 @@ func checkDeterminism(g *Gen, stats map[string]int) {
 		env := NewEnv(realOracle)
 		k := 0
 		for i, line := range g.ops {
-			out := env.Exec(line)
+			var out string
+			if rep == 1 && strings.HasPrefix(line, "world dryrun:") {
+				// the second replica never runs the discarded branches (a node that did not see the
+				// CheckTx / simulation / proposal dry run): it must stay in step all the same
+				out = "ok"
+				stats["det:dry-runs-skipped-by-one-replica"]++
+			} else {
+				out = env.Exec(line)
+			}
 			if out != g.outs[i] {
 				g.mon.viol = append(g.mon.viol, Violation{Property: "C06", Class: "output-differs-between-replays", History: g.mon.history, OpIndex: i,
 					Detail: fmt.Sprintf("op %q gave %q in the first run and %q in replay %d", line, g.outs[i], out, rep+1)})
